@@ -15,9 +15,19 @@ def live_state(sc, name, MX):
     """state dictionary that reproduces the aircraft's current state exactly in a new scene"""
     a = sc._airplanes[name]
     q = np.array(a.q, dtype=float)
-    return {"position": [float(x) for x in a.p_bar], "orientation": [float(x) for x in q],
-            "velocity": [float(x) for x in MX.helpers.quat_trans(q, np.array(a.v, dtype=float))],
-            "angular_rates": [float(x) for x in a.w]}
+    st = {"position": [float(x) for x in a.p_bar], "orientation": [float(x) for x in q],
+          "velocity": [float(x) for x in MX.helpers.quat_trans(q, np.array(a.v, dtype=float))],
+          "angular_rates": [float(x) for x in a.w]}
+    fr = getattr(a, "angular_rate_frame", "body")
+    if fr in ("stab", "wind"):
+        # the frame the rates were last given in is part of the state (the damping derivatives are taken about its axes):
+        # hand the current body rates over in that frame, whose axes belong to the CURRENT wind-relative angle of attack / sideslip
+        al, be, _ = a.get_aerodynamic_state(v_wind=sc._get_wind(a.p_bar))
+        H = MX.helpers
+        qf = H.quat_conj(H.euler_to_quat([0.0, math.radians(al), 0.0 if fr == "stab" else -math.radians(be)]))
+        st["angular_rates"] = [float(x) for x in H.quat_trans(qf, np.array(a.w, dtype=float))]
+        st["angular_rate_frame"] = fr
+    return st
 
 
 def fresh_scene(sc, pool, names_ids, MX, sd):
